@@ -67,6 +67,10 @@ type c07Sc struct {
 	// offered Endless items after the context was cancelled (so it is finite for implementations that drain
 	// the source before returning)
 	Endless int `json:"endless,omitempty"`
+	// Special: generated items that are not their int index but a zero value; each kind at most once per
+	// scenario so that the mapper can map the value back to its index
+	// (kinds: nil | nil-ptr | empty-string | false | empty-struct; item 0 is the int zero anyway)
+	Special []c07Special `json:"special,omitempty"`
 	// Probe: the last item is a probe: when its send completes gate "px" is closed and the generator waits for "rw"
 	Probe bool `json:"probe,omitempty"`
 	// OutVal selects what the reducer writes: "" (a tagged struct) | nil | int0 | empty-string | false | nil-ptr | empty-struct
@@ -99,6 +103,70 @@ func (sc *c07Sc) hasReducer() bool {
 }
 
 func (sc *c07Sc) hasOutput() bool { return sc.Entry == "MapReduce" || sc.Entry == "MapReduceChan" }
+
+type c07Special struct {
+	At   int    `json:"at"`
+	Kind string `json:"kind"`
+}
+
+var c07SpecialKinds = []string{"nil", "nil-ptr", "empty-string", "false", "empty-struct"}
+
+// itemVal is the value the generator emits for index i.
+func (sc *c07Sc) itemVal(i int) any {
+	for _, sp := range sc.Special {
+		if sp.At == i {
+			switch sp.Kind {
+			case "nil":
+				return nil
+			case "nil-ptr":
+				return (*int)(nil)
+			case "empty-string":
+				return ""
+			case "false":
+				return false
+			case "empty-struct":
+				return struct{}{}
+			}
+		}
+	}
+	return i
+}
+
+// itemIndex maps a value received by a mapper back to the generated index (-1 = never generated).
+func (sc *c07Sc) itemIndex(item any) int {
+	kind := ""
+	switch v := item.(type) {
+	case int:
+		for _, sp := range sc.Special {
+			if sp.At == v {
+				return -1 // that index was emitted as a special value, not as an int
+			}
+		}
+		return v
+	case nil:
+		kind = "nil"
+	case *int:
+		if v == nil {
+			kind = "nil-ptr"
+		}
+	case string:
+		if v == "" {
+			kind = "empty-string"
+		}
+	case bool:
+		if !v {
+			kind = "false"
+		}
+	case struct{}:
+		kind = "empty-struct"
+	}
+	for _, sp := range sc.Special {
+		if kind != "" && sp.Kind == kind {
+			return sp.At
+		}
+	}
+	return -1
+}
 
 type c07Val struct{ id, k int }
 type c07Out struct{ idx, k int }
@@ -354,9 +422,9 @@ func (x *c07Run) enter() { atomic.AddInt32(&x.active, 1) }
 func (x *c07Run) leave() { atomic.AddInt32(&x.active, -1) }
 
 func (x *c07Run) mapperEnter(item any) (id int, it c07It, ok bool) {
-	id, isInt := item.(int)
+	id = x.sc.itemIndex(item)
 	x.mu.Lock()
-	if !isInt || id < 0 || id >= x.sc.N {
+	if id < 0 || id >= x.sc.N {
 		x.badItems = append(x.badItems, fmt.Sprintf("%#v", item))
 		x.mu.Unlock()
 		return 0, c07It{}, false
@@ -581,7 +649,7 @@ func (x *c07Run) generate(source chan<- any) {
 					return
 				}
 			}
-			source <- i
+			source <- x.sc.itemVal(i)
 			if x.sc.Probe && i == x.sc.N-1 {
 				x.mu.Lock()
 				x.pxAt = vk.Seq()
